@@ -43,3 +43,106 @@ Theorem c07_random_mac : forall mem prefix rnd, 6 <= zlen mem -> 6 <= zlen rnd -
             end.
 Proof. exact random_mac_ok. Qed.
 Print Assumptions c07_random_mac.
+
+(* ---- statements about the C code AS TRANSLATED on this run (Gen/Sites.v: every guard, declaration, conversion and call argument with the
+   types clang computed; tools/sites.py), for every memory m and every environment: tie #1 extended from constants to arithmetic and
+   control flow.  Vocabulary in Spec/CodeSpec.v, evaluator and interpreter in Base/CExpr.v, proofs in Proofs/SitesProofs.v. ---- *)
+From Coq Require Import String.
+From LW Require Import Base.CExpr Gen.Sites Spec.CodeSpec Proofs.SitesProofs.
+Local Open Scope string_scope.
+Local Open Scope Z_scope.
+
+
+Theorem c07_code_dump_beacon : forall m ,
+  dump_ok m body_libwifi_get_beacon_length body_libwifi_dump_beacon
+          "libwifi_get_beacon_length" "beacon" "beacon->tags.length" (2 ^ 63) (2 ^ 64 - 22).
+Proof. exact code_dump_beacon. Qed.
+Print Assumptions c07_code_dump_beacon.
+
+
+Theorem c07_code_dump_probe_req : forall m ,
+  dump_ok m body_libwifi_get_probe_req_length body_libwifi_dump_probe_req
+          "libwifi_get_probe_req_length" "probe_req" "probe_req->tags.length" (2 ^ 63) (2 ^ 64 - 22).
+Proof. exact code_dump_probe_req. Qed.
+Print Assumptions c07_code_dump_probe_req.
+
+
+Theorem c07_code_dump_probe_resp : forall m ,
+  dump_ok m body_libwifi_get_probe_resp_length body_libwifi_dump_probe_resp
+          "libwifi_get_probe_resp_length" "probe_resp" "probe_resp->tags.length" (2 ^ 63) (2 ^ 64 - 22).
+Proof. exact code_dump_probe_resp. Qed.
+Print Assumptions c07_code_dump_probe_resp.
+
+
+Theorem c07_code_dump_assoc_req : forall m ,
+  dump_ok m body_libwifi_get_assoc_req_length body_libwifi_dump_assoc_req
+          "libwifi_get_assoc_req_length" "assoc_req" "assoc_req->tags.length" (2 ^ 63) (2 ^ 64 - 22).
+Proof. exact code_dump_assoc_req. Qed.
+Print Assumptions c07_code_dump_assoc_req.
+
+
+Theorem c07_code_dump_assoc_resp : forall m ,
+  dump_ok m body_libwifi_get_assoc_resp_length body_libwifi_dump_assoc_resp
+          "libwifi_get_assoc_resp_length" "assoc_resp" "assoc_resp->tags.length" (2 ^ 63) (2 ^ 64 - 22).
+Proof. exact code_dump_assoc_resp. Qed.
+Print Assumptions c07_code_dump_assoc_resp.
+
+
+Theorem c07_code_dump_reassoc_req : forall m ,
+  dump_ok m body_libwifi_get_reassoc_req_length body_libwifi_dump_reassoc_req
+          "libwifi_get_reassoc_req_length" "reassoc_req" "reassoc_req->tags.length" (2 ^ 63) (2 ^ 64 - 22).
+Proof. exact code_dump_reassoc_req. Qed.
+Print Assumptions c07_code_dump_reassoc_req.
+
+
+Theorem c07_code_dump_reassoc_resp : forall m ,
+  dump_ok m body_libwifi_get_reassoc_resp_length body_libwifi_dump_reassoc_resp
+          "libwifi_get_reassoc_resp_length" "reassoc_resp" "reassoc_resp->tags.length" (2 ^ 63) (2 ^ 64 - 22).
+Proof. exact code_dump_reassoc_resp. Qed.
+Print Assumptions c07_code_dump_reassoc_resp.
+
+
+Theorem c07_code_dump_auth : forall m ,
+  dump_ok m body_libwifi_get_auth_length body_libwifi_dump_auth
+          "libwifi_get_auth_length" "auth" "auth->tags.length" (2 ^ 63) (2 ^ 64 - 22).
+Proof. exact code_dump_auth. Qed.
+Print Assumptions c07_code_dump_auth.
+
+
+Theorem c07_code_dump_deauth : forall m ,
+  dump_ok m body_libwifi_get_deauth_length body_libwifi_dump_deauth
+          "libwifi_get_deauth_length" "deauth" "deauth->tags.length" (2 ^ 63) (2 ^ 64 - 22).
+Proof. exact code_dump_deauth. Qed.
+Print Assumptions c07_code_dump_deauth.
+
+
+Theorem c07_code_dump_disassoc : forall m ,
+  dump_ok m body_libwifi_get_disassoc_length body_libwifi_dump_disassoc
+          "libwifi_get_disassoc_length" "disassoc" "disassoc->tags.length" (2 ^ 63) (2 ^ 64 - 22).
+Proof. exact code_dump_disassoc. Qed.
+Print Assumptions c07_code_dump_disassoc.
+
+(* the timing advertisement routine reports the short buffer as -1, not -EINVAL *)
+Theorem c07_code_dump_timing_advert : forall m ,
+  dump_ok m body_libwifi_get_timing_advert_length body_libwifi_dump_timing_advert
+          "libwifi_get_timing_advert_length" "adv" "adv->tags.length" (2 ^ 63) (2 ^ 64 - 1).
+Proof. exact code_dump_timing_advert. Qed.
+Print Assumptions c07_code_dump_timing_advert.
+
+(* the payload of an action frame is the detail, whose length is one octet *)
+Theorem c07_code_dump_action : forall m ,
+  dump_ok m body_libwifi_get_action_length body_libwifi_dump_action
+          "libwifi_get_action_length" "action" "action->fixed_parameters.details.detail_length" 256 (2 ^ 64 - 22).
+Proof. exact code_dump_action. Qed.
+Print Assumptions c07_code_dump_action.
+
+
+Theorem c07_code_dump_tag : forall m rho buf bl tl,
+  0 <= buf -> 0 <= bl -> buf + bl < 2 ^ 63 -> 0 <= tl < 256 ->
+  let rho0 := upd (upd (upd rho "buf" buf) "buf_len" bl) "tag->header.tag_len" tl in
+  exists tr,
+    observe (exec 60 m rho0 [] body_libwifi_dump_tag) =
+      (if 2 + tl >? bl then Some (Some (2 ^ 64 - 22), []) else Some (Some (2 + tl), tr)) /\
+    (2 + tl <= bl -> writes_from buf tr (buf + 2 + tl)).
+Proof. exact code_dump_tag. Qed.
+Print Assumptions c07_code_dump_tag.
